@@ -11,8 +11,8 @@ pub fn prop() -> HistProp {
         focus: &["C13"],
         opts: HistOpts { max_ops: 30, app_attrs: true, send_weight: 8, hostile: 0, ..HistOpts::default() },
         drain: false,
-        quick: 20_000,
-        thorough: 300_000,
+        quick: 150_000,
+        thorough: 2_000_000,
         rule: "operation histories generated as one value (sends with application attributes, indications, clock advances, timer calls exact/early/late, replies to outstanding/finished/unknown ids with every authentication and fingerprint variant, 401/438 challenges, garbage and mutated buffers) run against a real client and the reference tracker in lock-step under a virtual clock; application attribute lists of 0-6 attributes of any kind, in any order, with duplicates and with USERNAME/USERHASH/REALM/NONCE/PASSWORD-ALGORITHM(S)/MESSAGE-INTEGRITY/SHA256/FINGERPRINT supplied by the application; every emitted packet is parsed with the reference codec: asked method and class, never-seen transaction id, application attributes one per type in first-insertion order minus those the mechanism owns, then the mechanism's attributes, then at most one MI, SHA256, FINGERPRINT in that order, each verifying with the reference crypto; retransmissions byte-identical; non-trivial = a request whose application list collides with a mechanism-owned type or contains integrity/fingerprint; distinct = hash of the history",
         assumptions: &["with no mechanism configured an application-supplied integrity attribute must verify under the application's own key"],
         nontrivial: |h, _| h.ops.iter().any(|o| matches!(o, Op::Send { attrs, .. } | Op::Indication { attrs, .. } if attrs.iter().any(|a| matches!(a.type_code(), 0x0006 | 0x0008 | 0x0014 | 0x0015 | 0x001C | 0x001D | 0x001E | 0x8002 | 0x8028)))),
